@@ -71,13 +71,24 @@ class Shard:
         ol = out.split('\n')
         if ol and ol[-1] == '':
             ol.pop()
+        guard_fault = False
+        while ol and ol[-1].strip() in ('', 'GUARD-PAGE-FAULT'):
+            guard_fault = guard_fault or ol[-1].strip() == 'GUARD-PAGE-FAULT'
+            ol.pop()
         res = [None] * len(lines)
         for i, l in enumerate(ol[:len(lines)]):
             res[i] = l.split(' ')
         fail = classify_failure(rc, err)
+        if guard_fault or rc == 77:
+            fail = 'guard-page-fault'
         if rc == 3 or 'DRIVER-ERROR' in err:
             self.harness_errors.append('driver %s rejected input: %s' % (cfg, err[-400:]))
         elif fail:
+            # drivers print the op name before executing it: when the process died, the last printed line is the operation in
+            # flight and carries no (complete) answer
+            if rc != 0 and ol and len(ol) <= len(lines):
+                res[len(ol) - 1] = None
+                ol = ol[:-1]
             culprit = lines[len(ol)] if len(ol) < len(lines) else (lines[-1] if lines else '')
             # a partially printed last line means the op died mid-way
             if len(ol) <= len(lines) and len(ol) > 0 and rc != 0:
